@@ -292,7 +292,12 @@ def fr_agree(m, i):
     if m.startswith('FR ok') and ('=unsafe' in m):
         return i.startswith('CRASH')
     if m.startswith('FR ok') and i.startswith('FR ok'):
-        return canon_fr(m) == canon_fr(i)
+        cm, ci = canon_fr(m), canon_fr(i)
+        if 'oend=clean' not in m:
+            # the parser stage ended early (exception): read() returns nullptr at once and close() aborts the inflating
+            # worker wherever it is — how many containers it has counted by then depends on timing, not on the file
+            cm, ci = cm[:3] + cm[4:], ci[:3] + ci[4:]
+        return cm == ci
     return m == i
 
 
@@ -509,6 +514,31 @@ def assembled_run(meta, seed, tier):
         else:
             data = file_of([wrap_container(c, rng.choice([0, 2])) for c in chunk(rng, stream, rng.choice([[1 << 20], [16, 33], [5]]))])
         cases.append({'mode': mode, 'data': data, 'expect': None, 'layout': None, 'stream': stream})
+    # systematic: an object of EVERY class (one API-populated encoding each, older layout versions included where the generator
+    # picked one) whose header declares less than the object holds (16 = one base header, 0, its header size), between two
+    # ordinary objects — a reader that seeks back by `declared - computed size` must still make progress
+    names = sorted(n for n, c in meta['classes'].items() if c.get('isobj') and c.get('concrete') and n != 'LogContainer')
+    variant = [n for n in names if meta['classes'][n].get('selectors')]      # classes with several layout versions / variants
+    if tier == 'quick':
+        names = [n for k, n in enumerate(names) if (k + seed) % 2 == 0 and n not in variant]
+    allobjs = [g.obj(n, small=True) for n in names]
+    for n in variant:
+        for fid, vals in meta['classes'][n]['selectors'].items():
+            for val in vals:
+                names.append(n)
+                allobjs.append(g.obj(n, small=True) + ' %s=%d' % (fid, val))        # a later assignment overrides the generated one
+    ao = codec.run_model(mexe, ['W ' + o for o in allobjs])
+    e2 = encs[0][1]
+    for n, o, e in zip(names, allobjs, ao):
+        if not e.startswith('W ok '):
+            continue
+        eb = bytes.fromhex(e.split(' ')[2])
+        for declared in (16, 0, struct.unpack_from('<H', eb, 4)[0]):
+            b = bytearray(eb)
+            struct.pack_into('<I', b, 8, declared)
+            stream = e2 + bytes(b) + e2 + e2
+            data = file_of([wrap_container(c, 0) for c in chunk(rng, stream, [1 << 20])])
+            cases.append({'mode': 'hostile-declared%d:%s' % (declared, n), 'data': data, 'expect': None, 'layout': None, 'stream': stream})
     for c in cases:
         c['line'] = 'FR ' + c['data'].hex()
     mo, io = run_lines([c['line'] for c in cases])
